@@ -146,6 +146,18 @@ CLAIMED = {
         note=LP_NOTE + " fastcc completeness is a known finding (drops unblocked reversible reactions, known_findings.json): only that signature is tolerated.",
         technique="Lean 4 proof (blockedness from certificates) + certified differential testing",
         design="DESIGN.md section 5, C19"),
+    "C20": dict(
+        engine="summary",
+        text="Lean 4 over the executable table model SummaryM (scale by the coefficient, tolerance zeroing, FVA range scaling and swap, producing/"
+             "consuming split, percentages): every row lands in exactly one table (exactly_one_table), listed flux = solution flux x coefficient "
+             "(flux_is_scaled), scaled ranges stay ordered (range_ordered, zeroSmall_mono), the two sides add up to sum(factor x flux) = 0 at steady "
+             "state (sum_scaled), percentages sum to one on a side with flux (percents_sum_one). The model is run on the same rows as the real "
+             "ModelSummary/MetaboliteSummary (lean --run) and the tables are compared entry by entry; direct oracle for exactly-once listing, "
+             "objective value, balance, percentages; rendering of model/metabolite/reaction summaries must not raise.",
+        note="Trusted: Lean kernel, standard axioms; the table model is tied to the code by the sampled correspondence; pandas rendering is not modelled; "
+             "defaulted solution (pFBA) and float fva are recomputed deterministically by the harness.",
+        technique="Lean 4 proof over an executable table model + differential correspondence",
+        design="DESIGN.md section 5, C20"),
 }
 
 PENDING_REASON = "check under construction in this session (see DESIGN.md section 9 build order); not claimed until its Lean model, theorems and correspondence exist"
@@ -186,6 +198,8 @@ def main():
              "kind_free_text": "Lean Core model (content + solver + undo stack as functions over ids), theorems in Props/C01,C02,C03,C07, traces on the real model with raw GLPK read-out"},
             {"name": "lp", "path": "harness/lpcert.py", "serves_properties": ["C04", "C05", "C06", "C09", "C17", "C18", "C19"],
              "kind_free_text": "Lean LP model + proved certificate checker (Model/LP.lean, Lemmas/LP.lean), untrusted exact simplex, constructive FBA instance generator"},
+            {"name": "summary", "path": "harness/c20.py", "serves_properties": ["C20"],
+             "kind_free_text": "Lean table model SummaryM + driver, compared with ModelSummary / MetaboliteSummary frames"},
             {"name": "gpr", "path": "harness/c08.py", "serves_properties": ["C08"],
              "kind_free_text": "Lean model GPRM (rule trees, parser, remover) + generated escape tables + correspondence against cobra.core.gene.GPR"},
         ],
